@@ -33,7 +33,7 @@ NONTRIVIAL = ('G > 0 dB and (the input carries non-zero noise or the RNG answer 
 
 EPS = np.finfo(float).eps
 LAYOUTS = ['1pol', '2pol', '2pol-empty-y']
-NKINDS = ['absent', 'zero', 'complex', 'real', 'absent-realsig']
+NKINDS = ['absent', 'zero', 'complex', 'real', 'absent-realsig', 'int', 'absent-intsig']   # int kinds: integer-dtype samples
 ANSWERS = ['zero', 'u0', 'u1', 'u2', 'u3', 'seeded']
 
 
@@ -57,7 +57,7 @@ def build_arrays(N, layout, nkind, seed):
         sig, noi = np.array([s1, np.zeros(N)]), np.array([n1, n2])
     else:
         raise AssertionError(layout)
-    if nkind in ('absent', 'absent-realsig'):
+    if nkind in ('absent', 'absent-realsig', 'absent-intsig'):
         noi = None
     elif nkind == 'zero':
         noi = np.zeros_like(noi)
@@ -65,6 +65,10 @@ def build_arrays(N, layout, nkind, seed):
         sig = np.ascontiguousarray(sig.real)
         if noi is not None:
             noi = np.ascontiguousarray(noi.real)
+    if nkind in ('int', 'absent-intsig'):
+        sig = np.rint(sig.real * 8).astype(np.int64) + 1
+        if noi is not None:
+            noi = np.rint(noi.real * 64).astype(np.int64)
     sig.flags.writeable = False
     if noi is not None:
         noi.flags.writeable = False
@@ -195,7 +199,7 @@ def case_scripted(case):
         stats['edfa_calls'] += 1
         return call_edfa(cfg, a, bw)
 
-    nonzero_noise = nkind in ('complex', 'real')
+    nonzero_noise = nkind in ('complex', 'real', 'int')
     nt = G > 0 and (nonzero_noise or akind != 'zero')
 
     # ---------------- unfiltered execution under this case's answer
